@@ -328,6 +328,7 @@ class Prog:
         self.polled = set()
         self.types = ["1", "2"]
         self.topics = ["1", "2"]
+        self.cancel_p = 0.08
         self.ops = []
         self.counter = counter
 
@@ -398,7 +399,9 @@ class Prog:
             k = self.h[x]
             o = {"op": op, "h": x}
             if op == "join":
-                o["d"] = rng.choice([0, 0, 2, 3])
+                o["d"] = rng.choice([0, 0, 1, 2, 3])
+            elif op in ("send", "call", "ping", "await_ref", "try_halt", "halt", "await", "consume") and rng.random() < self.cancel_p:
+                o["d"] = 1          # poll once, drop if still pending
             if op in ("send", "call"):
                 o["scr"] = self.scripts() if callable(self.scripts) else rng.choice(self.scripts)
             if (op, k) in NEWKIND:
